@@ -134,11 +134,24 @@ class Instance:
         """Canonical hash of K; stores one representative directory per distinct K."""
         lst = self.listing()
         c0 = os.path.join(self.root, "cache")
-        if not lst and os.path.isdir(c0) and any(fs for _d, _s, fs in os.walk(c0)):
-            has_records = any(f for _d, _s, fs in os.walk(c0) for f in fs
-                              if f not in (".gitignore", "CACHEDIR.TAG", "missing_stubs"))
-            if has_records:
-                raise RuntimeError("cache directory has files but the store lists no records (harness bug)")
+        if not lst and os.path.isdir(c0):
+            # vacuity guard: an empty listing must really mean "no records"
+            n_raw = 0
+            for d, _s, fs in os.walk(c0):
+                for f in fs:
+                    if self.store == "sqlite" and f.endswith(".db"):
+                        import sqlite3
+
+                        con = sqlite3.connect(os.path.join(d, f))
+                        try:
+                            n_raw += con.execute("SELECT COUNT(*) FROM files2").fetchone()[0]
+                        except sqlite3.Error:
+                            pass
+                        con.close()
+                    elif self.store == "fs" and (".data." in f or ".meta" in f):
+                        n_raw += 1
+            if n_raw:
+                raise RuntimeError(f"cache has {n_raw} raw records but the store API lists none (harness bug)")
         h = hashlib.sha1(repr(lst).encode()).hexdigest()[:20]
         dst = os.path.join(self.snapdir, h)
         if not os.path.isdir(dst):
